@@ -39,18 +39,19 @@ def variants_for(wl, tier):
     # fit 30-90 (powell 765), KK 30-330, lm 178, bht 141, mrq-fit 802): 10-25 s of work per workload
     m = wl["kwargs"].get("method")
     if wl["kind"] == "drt":
-        n = {"tr-nnls": 500, "lm": 100, "bht": 100, "mrq-fit": 25}.get(m, 60)
+        n = {"tr-nnls": 120, "lm": 60, "bht": 100, "mrq-fit": 20}.get(m, 60)
     elif wl["kind"] == "fit":
         n = 40 if "powell" in (m if isinstance(m, list) else [m]) else 160
     elif wl["kind"] == "zhit":
-        n = 130
+        n = 100
     else:
         n = 70
     return n if tier == "quick" else n * 6
 
 
 def workload_meta(wl):
-    return {"kind": wl["kind"]}
+    m = wl["kwargs"].get("method") or wl["kwargs"].get("test") or ""
+    return {"kind": wl["kind"] + ":" + (m if isinstance(m, str) else "+".join(m)) + f":n={wl['data']['n']}"}
 
 
 def gen_workload(rng, tier):
